@@ -331,6 +331,9 @@ func NewWorld(t testingT, plan *Plan) *World {
 	setDetRand(plan.Tail, 0)
 	http2.VerifResetPools()
 	http2.VerifYield = nil
+	if os.Getenv("VERIF_SERVEFENCES") != "" {
+		plan.ServeFences = true // dev aid: every run of any check takes the serve fence
+	}
 	if plan.Fences || plan.CaptureFences || plan.BodyReadFences || plan.WriteFences || plan.ServeFences {
 		http2.VerifYield = func(site, remote string) {
 			if site == "capture" {
